@@ -697,6 +697,12 @@ class NodeDerefInvoke:
             return invoke(fn, names, args, environment, self.pos)
 
         if obj_.isMap():
+            if not obj_.hasItem(ValueString(self.member)):
+                raise CklRuntimeError(
+                    ValueString("ERROR"),
+                    f"Member {self.member} not found",
+                    self.pos,
+                )
             fn = obj_.value[ValueString(self.member)]
             if not fn.isFunc():
                 raise CklRuntimeError(
